@@ -46,7 +46,9 @@ from pyhf.typing import (
 
 log = logging.getLogger(__name__)
 
-FileCacheType = MutableMapping[str, Tuple[Union[IO[str], IO[bytes]], Set[str]]]
+FileCacheType = MutableMapping[
+    str, Tuple[Union[IO[str], IO[bytes]], Set[str], Tuple[int, int, int]]
+]
 MountPathType = Iterable[Tuple[Path, Path]]
 ResolverType = Callable[[str], Path]
 
@@ -116,12 +118,15 @@ def import_root_histogram(
     path = path or ''
     path = path.strip('/')
     fullpath = str(resolver(filename))
-    if fullpath not in filecache:
+    # a file that was rewritten since it was cached must be read again
+    file_stat = Path(fullpath).stat()
+    signature = (file_stat.st_ino, file_stat.st_mtime_ns, file_stat.st_size)
+    if fullpath not in filecache or filecache[fullpath][2] != signature:
         f = uproot.open(fullpath)
         keys = set(f.keys(cycle=False))
-        filecache[fullpath] = (f, keys)
+        filecache[fullpath] = (f, keys, signature)
     else:
-        f, keys = filecache[fullpath]
+        f, keys, _ = filecache[fullpath]
 
     fullname = "/".join([path, name])
 
